@@ -380,9 +380,12 @@ def cases(tier, seed):
 
     N = 2 if tier == "quick" else 3
     ints = [Case("entity(n:int|%s)|N<=%d" % (nm, N), int_harness(nm, N), key="entity(n:int|%s)" % nm, reset=eql_reset, validate=1, core=True) for nm in INT_SHAPES]
-    plains = [Case("entity(n:plain values|%s)|%d elements" % (kd, m), plain_harness(kd, m), key="entity(n:plain|%s|%d)" % (kd, m), reset=eql_reset, validate=1, core=True)
-              for kd in ("all", "n<=k", "not(n<k)") for m in ((2, 3) if tier != "quick" or kd != "not(n<k)" else (2,))]
-    return select_cases(make_cases(tier), tier, seed, extra_quick=40) + ints + plains
+    return select_cases(make_cases(tier), tier, seed, extra_quick=40) + ints + plain_cases(tier)
+
+
+def plain_cases(tier):
+    return [Case("entity(n:plain values|%s)|%d elements" % (kd, m), plain_harness(kd, m), key="entity(n:plain|%s|%d)" % (kd, m), reset=eql_reset, validate=1, core=True)
+            for kd in ("all", "n<=k", "not(n<k)") for m in ((2, 3) if tier != "quick" or kd != "not(n<k)" else (2,))]
 
 
 def describe(tier):
